@@ -297,6 +297,7 @@ func runC05(c *Ctx) {
 		n, bad := c05SharedBigRule(c)
 		c.Extra["mutating_bigint_calls_examined"] = n
 		_ = bad
+		c.Extra["mutating_bigint_receivers_classified"] = bigOwnershipRule(c, "C05-R4")
 	})
 	c.Min("C05-R4", 1)
 }
@@ -427,4 +428,101 @@ func globalBigOf(v ssa.Value, depth int) string {
 		}
 	}
 	return ""
+}
+
+// bigOwnershipRule (whole module): the receiver of every mutating (*big.Int) method is owned by the function that
+// mutates it - a fresh allocation, a value from an integer pool, a popped stack item, the function's own parameter
+// (its documented contract), a field of a structure allocated in the same function or of the method's own receiver,
+// or the result of a callee known to return a fresh integer. Anything else is an integer handed out by an accessor
+// (a cached total difficulty, an account balance, a header or transaction field, a protocol constant): mutating it in
+// place silently changes that shared value for everyone else.
+func bigOwnershipRule(c *Ctx, rule string) int {
+	fresh := map[string]string{
+		"big.NewInt": "fresh", "bnPool.Get": "pool", "intPool.get": "pool", "intPool.getZero": "pool", "Stack.pop": "popped item is owned by the instruction",
+		"Stack.peek": "top-of-stack slot updated in place by design", "Stack.Back": "stack slot updated in place by design",
+		"math.U256": "returns its (owned) argument", "math.S256": "returns its (owned) argument or a fresh integer", "Bloom.Big": "fresh (SetBytes)",
+		"Block.Number": "returns a copy", "Block.Difficulty": "returns a copy", "Block.Time": "returns a copy", "Hash.Big": "fresh", "Address.Big": "fresh",
+		"math.BigPow": "fresh", "math.Exp": "fresh", "math.MustParseBig256": "fresh", "math.ParseBig256": "fresh", "Transaction.Value": "returns a copy",
+		"Transaction.GasPrice": "returns a copy", "Transaction.Cost": "fresh", "Message.Value": "n/a", "rand.Int": "fresh",
+	}
+	exemptPkg := func(p string) bool {
+		return strings.HasPrefix(p, "crypto/bn256") || strings.HasPrefix(p, "crypto/secp256k1") || p == "common/math" || strings.HasPrefix(p, "cmd/") || strings.HasPrefix(p, "crypto/ecies")
+	}
+	n := 0
+	for _, fn := range c.SrcFns {
+		if fn.Pkg == nil || exemptPkg(relPkg(fn.Pkg.Pkg.Path())) || fn.Synthetic != "" {
+			continue
+		}
+		if shortFn(fn) == "(*core/vm.intPool).put" {
+			continue // the pool takes ownership of the integers handed back to it (C08-R7 decides who may hand them back)
+		}
+		var tr *termRenderer
+		for _, b := range fn.Blocks {
+			for _, ins := range b.Instrs {
+				call, ok := ins.(*ssa.Call)
+				if !ok {
+					continue
+				}
+				f := call.Call.StaticCallee()
+				if f == nil || f.Signature.Recv() == nil || !strings.HasSuffix(f.Signature.Recv().Type().String(), "big.Int") || !bigMutators[f.Name()] {
+					continue
+				}
+				n++
+				for _, r := range bigRoots(call.Call.Args[0]) {
+					ok, why := false, ""
+					switch x := r.(type) {
+					case *ssa.Alloc, *ssa.Parameter, *ssa.FreeVar, *ssa.TypeAssert:
+						ok = true
+					case *ssa.Const:
+						ok = true // nil receiver: would panic, not alias
+					case *ssa.Call:
+						_, ok = fresh[calleeName(&x.Call)]
+					case *ssa.Extract:
+						if cc, isC := x.Tuple.(*ssa.Call); isC {
+							_, ok = fresh[calleeName(&cc.Call)]
+							if strings.HasSuffix(calleeName(&cc.Call), ".SetString") || calleeName(&cc.Call) == "math.ParseBig256" {
+								ok = true
+							}
+						}
+					case *ssa.UnOp:
+						// a field / element: owned if the enclosing structure was allocated here, is the method's receiver, or a local cell
+						base := x.X
+						for i := 0; i < 6; i++ {
+							switch y := base.(type) {
+							case *ssa.FieldAddr:
+								base = y.X
+								continue
+							case *ssa.IndexAddr:
+								base = y.X
+								continue
+							case *ssa.UnOp:
+								base = y.X
+								continue
+							}
+							break
+						}
+						switch y := base.(type) {
+						case *ssa.Alloc, *ssa.FreeVar, *ssa.MakeSlice:
+							ok = true
+						case *ssa.Parameter:
+							ok = len(fn.Params) > 0 && y == fn.Params[0] && fn.Signature.Recv() != nil
+							why = "field of a parameter that is not the method's own receiver"
+						case *ssa.Global:
+							why = "package-level integer"
+						}
+					}
+					if ok {
+						continue
+					}
+					if tr == nil {
+						tr = newTermRenderer(fn)
+					}
+					c.Ob(rule, shortFn(fn)+": big.Int."+f.Name()+" mutates an integer the function does not own", c.Position(call.Pos()), false,
+						"receiver may be "+tr.term(nil, r, 0)+" "+why+": an accessor hands out the shared value; copy it first (new(big.Int).Set)")
+				}
+			}
+		}
+	}
+	c.Ob(rule, "every in-place big.Int operation in the module works on an integer owned by the function", "", true, fmt.Sprintf("%d mutating calls classified", n))
+	return n
 }
